@@ -22,3 +22,30 @@ Theorem C06_period_independent : C06_period_independent_stmt. Proof. exact perio
 Print Assumptions C06_period_independent.
 Theorem C06_release_in_any_period : C06_release_in_any_period_stmt. Proof. exact release_in_any_period. Qed.
 Print Assumptions C06_release_in_any_period.
+
+(* ------------------------------------------------------------------------------------------------------------------
+   The guard check of the model IS the source: validMemoryCorruptionInformation as tools/cxx2gal.py regenerates it from
+   MemoryLeakDetector.cpp on every run (gen/Gen_LoopC06.v, byte memory of lib/CMem.v; GuardBytes is the pointer g) returns
+   true exactly when each of the G cells behind the user bytes equals the pattern -- the model's valid_guard on those cells --
+   reads nothing else, and needs only those G cells to exist.
+   ------------------------------------------------------------------------------------------------------------------ *)
+From Coq Require Import ZArith.
+From CppUVerif Require Import lib.CSem lib.CMem lib.CMemFacts gen.Gen_C06 gen.Gen_LoopC06 C06_SrcTie.
+Theorem C06_src_guard_check_is_the_model : forall fuel (m : CMem.memory) g bg og b o c0 c1 c2 r,
+  mem_ok m -> g = Ptr bg og -> view m g = c06_guard_bytes ->
+  view m (Ptr b o) = c0 :: c1 :: c2 :: r -> (3 < fuel)%nat ->
+  src_validGuard fuel m g (Ptr b o) = FOk (b2z (guard_ok (c0 :: c1 :: c2 :: r))).
+Proof. exact src_validGuard_spec. Qed.
+Print Assumptions C06_src_guard_check_is_the_model.
+Theorem C06_guard_ok_is_valid_guard : forall (mm : C06_Model.memory) p cells,
+  (forall i, (i < G)%nat -> mread mm (p + N.of_nat i) = nth i cells 0%N) -> valid_guard mm p = guard_ok cells.
+Proof. exact guard_ok_is_valid_guard. Qed.
+Print Assumptions C06_guard_ok_is_valid_guard.
+(* addMemoryCorruptionInformation stores exactly the model's `pattern` into the G cells at its argument; every other cell of every
+   block keeps its value (the resulting memory differs from m only there) *)
+Theorem C06_src_guard_write_is_the_model : forall fuel (m : CMem.memory) bg og b pre c0 c1 c2 r,
+  mem_ok m -> bg <> b -> (b < length m)%nat -> view m (Ptr bg og) = c06_guard_bytes ->
+  block m b = pre ++ c0 :: c1 :: c2 :: r -> (3 < fuel)%nat ->
+  src_addGuard fuel m (Ptr bg og) (Ptr b (Z.of_nat (length pre))) = FOk (tt, upd m b (pre ++ pattern ++ r)).
+Proof. exact src_addGuard_spec. Qed.
+Print Assumptions C06_src_guard_write_is_the_model.
